@@ -108,15 +108,22 @@ of a state's public `tags` list -/
 inductive C19Step
   | trig (m ev : Nat) (veto : Bool)
   | edit (s : Nat) (l : List Nat)
+  | poll (m ev : Nat)
 
 def c19Step : P C19Step := do
   let k ← nat
   if k = 0 then do let m ← nat; let ev ← nat; let v ← bool; pure (.trig m ev v)
-  else do let s ← nat; let l ← nats; pure (.edit s l)
+  else if k = 1 then do let s ← nat; let l ← nats; pure (.edit s l)
+  else do let m ← nat; let ev ← nat; pure (.poll m ev)
 
 def c19RunFlat (F : Flat) (nm : Nat) : List C19Step → MS → List Nat
   | [], _ => []
   | .edit s l :: r, ms => c19RunFlat { F with args := (F.cfg.setTags s l).args } nm r ms
+  | .poll m ev :: r, ms =>
+    -- a poll answers (code 10 | 11) and leaves everything as it is (`runFlat`)
+    [0, 10 + (if may F m ev ms then 1 else 0)]
+      ++ ((List.range nm).flatMap fun x => ms.cur x :: (snap F.cfg x ms.fs).map encOpt)
+      ++ c19RunFlat F nm r ms
   | .trig m ev veto :: r, ms =>
     let ms0 : MS := { ms with fs := { ms.fs with log := [] } }
     let (ms1, res) := trigger F m ev ms0 veto
@@ -143,7 +150,14 @@ def c19TagsCase : P String := do
   let c : FCfg := { feats := [], args := c19Args ss, hasOut := c19Out ss }
   pure (if isTag c s t then "1" else "0")
 
+/-- `c19dyn <feats> <dynamic_methods of the machine's own state class>` → the merged list, sorted -/
+def c19DynCase : P String := do
+  let feats ← list c19Mixin
+  let base ← nats
+  let l := customMethods feats base
+  pure (joinNats ((List.range 16).filter (fun x => l.contains x)))
+
 def hC19 : List (String × Handler) :=
-  [("c19ops", run c19OpsCase), ("c19flat", run c19FlatCase), ("c19tags", run c19TagsCase)]
+  [("c19dyn", run c19DynCase), ("c19ops", run c19OpsCase), ("c19flat", run c19FlatCase), ("c19tags", run c19TagsCase)]
 
 end Handlers
